@@ -59,12 +59,16 @@ def _mods():
 
 
 def call_impl(c, call):
+    """operand lists are real list objects, the same object when equal; no generator may modify them"""
     M, SQ = _mods()
-    if call[0] == 'mul':
-        return list(getattr(M, call[1])(c, list(call[2]), list(call[3]), big_endian=call[4]))
-    if call[0] == 'square':
-        return list(getattr(SQ, SQ_FNS[call[1]])(c, list(call[2]), big_endian=call[3]))
-    raise ValueError(call[0])
+
+    def run(L):
+        if call[0] == 'mul':
+            return list(getattr(M, call[1])(c, L(call[2]), L(call[3]), big_endian=call[4]))
+        if call[0] == 'square':
+            return list(getattr(SQ, SQ_FNS[call[1]])(c, L(call[2]), big_endian=call[3]))
+        raise ValueError(call[0])
+    return ac.hand_over(call[1], run)
 
 
 def run_impl(case):
